@@ -9,7 +9,7 @@ def check(ctx, rep):
         "raised(t) and critical(job(t))`, and the run continues only under the exact complement. R05.2 every "
         "successor start lies on a path where this iteration's abort test was already evaluated negative. "
         "R05.3 abort path = EXIT automaton Live -> Tidied -> Shut -> return False, with no wait for normal "
-        "completion. R05.4 tidy = cancel every element, then await all, unbounded. R05.7 (= R02.6) raised_exception(), which the run reads to tell a failure, is the exception of the job's own task for atomic jobs and nested schedulers alike. R05.9 the `critical` flag is what the caller gave (constructor stores it unchanged, no other writer, subclasses forward it, is_critical() is the attribute). R05.8 in the run, its nested form, the window wrapper and their private coroutines, an exception value is compared with None, never used as a boolean (its truth value is whatever its class says). R05.10 (= R07.1) wrapper typestate, cancellation path included. R05.11 a job that obtains its slot once a critical job has failed does not start: between its last suspension and the start of the body the wrapper tests a flag of the window, and the failure of a critical job raises that flag (the slot given back by any other job wakes the queued job up before the scheduler itself resumes).")
+        "completion. R05.4 tidy = cancel every element, then await all, unbounded. R05.7 (= R02.6) raised_exception(), which the run reads to tell a failure, is the exception of the job's own task for atomic jobs and nested schedulers alike. R05.9 the `critical` flag is what the caller gave (constructor stores it unchanged, no other writer, subclasses forward it, is_critical() is the attribute). R05.8 in the run, its nested form, the window wrapper and their private coroutines, an exception value is compared with None, never used as a boolean (its truth value is whatever its class says). R05.10 (= R07.1) wrapper typestate, cancellation path included. R05.11 a job that obtains its slot once a critical job has failed does not start: between its last suspension and the start of the body the wrapper tests a flag of the window, and the failure of a critical job raises that flag (the slot given back by any other job wakes the queued job up before the scheduler itself resumes). R05.12 (= R01.1) every job body, nested schedulers included, is started through the window wrapper: the gate of R05.11 is the only way in. R05.13 in the window wrapper the handler of a failing job asks the job now: it uses no value sampled from the job when the task was created.")
     rep.declined = ["'at that same instant' in wall-clock terms"]
     rep.trusted = ["T1", "T3"]
     runrules.detection_exact(ctx, rep, "R05.1")
@@ -22,3 +22,5 @@ def check(ctx, rep):
     common.exception_truthiness(ctx, rep, "R05.8")
     common.wrap_typestate(ctx, rep, "R05.10")
     common.window_gate(ctx, rep, "R05.11", "critical")
+    common.who_may_start(ctx, rep, "R05.12")
+    common.failure_read_when_it_happens(ctx, rep, "R05.13")
